@@ -739,7 +739,10 @@ fn run_ops<W: Write>(res: &Resolved, publics: &[PublicKey], sink: W, flush_model
                 } else if *seed % 4 == 1 {
                     // a source that goes on after the announced size (one stream feeding several pieces): only
                     // `len` bytes of it belong to this piece
-                    w.append_file_content(id, *len as u64, d.as_slice().chain(&AFTER_SOURCE[..]))
+                    // (one contiguous buffer: a reader that looks ahead gets the following bytes in the same read)
+                    let mut long = d.clone();
+                    long.extend_from_slice(&AFTER_SOURCE[..]);
+                    w.append_file_content(id, *len as u64, long.as_slice())
                         .map_err(|e| format!("op {i} append_file_content (source longer than announced): {e:?}"))?;
                 } else {
                     w.append_file_content(id, *len as u64, d.as_slice())
@@ -754,7 +757,9 @@ fn run_ops<W: Write>(res: &Resolved, publics: &[PublicKey], sink: W, flush_model
             ROp::Add { f, len, class, seed, overlay } => {
                 let d = piece_bytes(*class, *seed, *len, overlay);
                 if *seed % 4 == 1 {
-                    w.add_file(&res.names[*f], *len as u64, d.as_slice().chain(&AFTER_SOURCE[..]))
+                    let mut long = d.clone();
+                    long.extend_from_slice(&AFTER_SOURCE[..]);
+                    w.add_file(&res.names[*f], *len as u64, long.as_slice())
                         .map_err(|e| format!("op {i} add_file (source longer than announced): {e:?}"))?;
                 } else {
                     w.add_file(&res.names[*f], *len as u64, d.as_slice())
